@@ -66,7 +66,10 @@ Fixpoint replay (c : cfg) (U : list tx) (st : state) (steps : list hstep) : bool
       end
   end.
 
-Definition all_cfgs : list cfg := [mkCfg true true; mkCfg false true; mkCfg true false; mkCfg false false].
+(* F4 and F5 are repaired in /repo (commits 09a5b3f, aaf50e5): only the repaired mechanism is recognised.
+   (While they were open the three legacy variants of [cfg] were accepted here as well, so that the harmless
+   manifestation of F5 - a wrong refusal after a uint256 underflow - was not reported as model drift.) *)
+Definition all_cfgs : list cfg := [fixed_cfg].
 
 (* ---------- the specification on the observations ---------- *)
 Definition by_id (U : list tx) (h : N) : tx := utx U (N.to_nat h).   (* universe ids are the indices *)
